@@ -142,6 +142,29 @@ fn case_large(t: &mut Tape, st: &mut Stats) -> Verdict {
 
 /// small programs whose while loops run for tens to hundreds of iterations, also inside other loops
 fn case_long_loops(t: &mut Tape, st: &mut Stats) -> Verdict {
+    if t.chance(1, 12) {
+        // hand-built: the taken branch of an if / elseif / else runs a loop of more than a thousand iterations whose
+        // body is a passing if without else, and only then reaches the block's next elseif / else line
+        let n = 1025 + t.below(300) as u32;
+        let inner_if = if t.flip() {
+            Stmt::If(vec![(Cond::Value(Expr::Lit("yes".into())), vec![Stmt::Emit(1, vec![])])], None)
+        } else {
+            Stmt::If(vec![(Cond::Value(Expr::Lit("0".into())), vec![Stmt::Emit(5, vec![])]), (Cond::Value(Expr::Lit("x1".into())), vec![Stmt::Emit(1, vec![])])], None)
+        };
+        let looped = Stmt::While(Cond::Tick { neg: false, key: "many".into(), n }, vec![inner_if]);
+        let taken = vec![looped, Stmt::Emit(2, vec![Expr::Lit("branch-done".into())])];
+        let outer = match t.below(3) {
+            0 => Stmt::If(vec![(Cond::Value(Expr::Lit("true".into())), taken)], Some(vec![Stmt::Emit(3, vec![Expr::Lit("else".into())])])),
+            1 => Stmt::If(vec![(Cond::Value(Expr::Lit("false".into())), vec![Stmt::Emit(6, vec![])]), (Cond::Value(Expr::Lit("1".into())), taken), (Cond::Value(Expr::Lit("true".into())), vec![Stmt::Emit(7, vec![])])], Some(vec![Stmt::Emit(3, vec![Expr::Lit("else".into())])])),
+            _ => Stmt::If(vec![(Cond::Value(Expr::Lit("yes".into())), taken), (Cond::Value(Expr::Lit("true".into())), vec![Stmt::Emit(7, vec![])])], None),
+        };
+        let p = Program { arrays: vec![], fns: vec![], main: vec![outer, Stmt::Emit(4, vec![Expr::Lit("after".into())])] };
+        let v = run_program_bounded(&p, t, st, "C04", |_, _| true, 29_000);
+        if matches!(v, Verdict::Pass(_)) {
+            st.class("branch-running-over-1024-inner-if-blocks-before-its-else");
+        }
+        return v;
+    }
     let p = gen_program(t, GenCfg { functions: false, failures: false, max_depth: 4, max_stmts: 10, long_loops: true, probe_conditions: false });
     run_program_bounded(&p, t, st, "C04", |m, _| m.classes.contains("while-ran-100-times"), 12_000)
 }
@@ -149,7 +172,7 @@ fn case_long_loops(t: &mut Tape, st: &mut Stats) -> Verdict {
 pub fn property() -> Property {
     Property {
         id: "C04",
-        rule: "well-nested programs (AST of emit / set / if-elseif-else / while / for-in, depth <= 5 quick / 8 thorough, empty bodies, zero-iteration loops, loops re-entered many times, and - section long-loops - while loops of 20..250 iterations, also nested in other loops) rendered with a random alias or the canonical name for every keyword occurrence (generic 'end' or block-specific end), random indentation, blank and comment lines; conditions as values, boolean expressions, commands (tick), negated commands (not tock) and - in if / elseif - the capture command, plain or negated, with 1..3 arguments that may be empty, padded with blanks or a blank only, whose received values are part of the compared trace; emit trace (ids and argument values) and final variables compared with a tree-walking interpreter. Non-trivial: >= 2 block kinds nested and some block executed >= 2 times; distinct by script text",
+        rule: "well-nested programs (AST of emit / set / if-elseif-else / while / for-in, depth <= 5 quick / 8 thorough, empty bodies, zero-iteration loops, loops re-entered many times, and - section long-loops - while loops of 20..250 iterations, also nested in other loops, and hand-built programs in which the taken branch of an if / elseif / else executes 1025..1324 passing inner if blocks before its own next elseif / else line) rendered with a random alias or the canonical name for every keyword occurrence (generic 'end' or block-specific end), random indentation, blank and comment lines; conditions as values, boolean expressions, commands (tick), negated commands (not tock) and - in if / elseif - the capture command, plain or negated, with 1..3 arguments that may be empty, padded with blanks or a blank only, whose received values are part of the compared trace; emit trace (ids and argument values) and final variables compared with a tree-walking interpreter. Non-trivial: >= 2 block kinds nested and some block executed >= 2 times; distinct by script text",
         assumptions: &[
             "only well-nested programs; no goto into or out of blocks; arrays are not mutated during iteration; values are plain words that are not command names",
             "while loops are driven by deterministic tick/tock automata shared (as an algorithm) with the reference interpreter",
@@ -180,7 +203,7 @@ pub fn property() -> Property {
                     Tier::Thorough => Plan::Random { cases: 300_000, max_len: 500 },
                 },
                 case: case_long_loops,
-                min_classes: &[("while-ran-100-times", 300), ("while-ran-100-times-inside-a-loop-iteration", 50)],
+                min_classes: &[("while-ran-100-times", 300), ("while-ran-100-times-inside-a-loop-iteration", 50), ("branch-running-over-1024-inner-if-blocks-before-its-else", 300)],
             },
         ],
         probes: vec![],
